@@ -59,7 +59,9 @@ reg(part('s_avx2_packedpair', 'src/arch/x86_64/avx2/packedpair.rs', 'arch::x86_6
 reg(part('memchr_top', 'src/memchr.rs', 'memchr', cfg='x86_64'))
 reg(part('x86_64_memchr', 'src/arch/x86_64/memchr.rs', 'arch::x86_64::memchr'))
 reg(part('memmem_mod', 'src/memmem/mod.rs', 'memmem'))
-reg(part('memmem_searcher', 'src/memmem/searcher.rs', 'memmem::searcher'))
+reg(part('memmem_searcher', 'src/memmem/searcher.rs', 'memmem::searcher',
+         only_items=['struct SearcherRev', 'enum SearcherRevKind', 'impl SearcherRev', 'enum PrefilterConfig',
+                     'impl Default for PrefilterConfig', 'impl PrefilterConfig']))
 reg(part('cow', 'src/cow.rs', 'cow'))
 # the non-union, non-fn-pointer slice of the meta searcher that Two-Way depends on
 reg(part('memmem_pre', 'src/memmem/searcher.rs', 'memmem::searcher',
@@ -71,6 +73,11 @@ reg(part('memmem_pre', 'src/memmem/searcher.rs', 'memmem::searcher',
                      'impl Prefilter::fn simd128', 'impl Prefilter::fn neon', 'impl Prefilter::fn find']))
 # stubs: assumed contracts standing in for modules that are verified in another build
 reg(part('stub_all_memchr', None, 'arch::all::memchr'))
+reg(part('stub_root', None, ''))
+reg(part('stub_all_packedpair', None, 'arch::all::packedpair'))
+reg(part('stub_rabinkarp', None, 'arch::all::rabinkarp'))
+reg(part('stub_twoway', None, 'arch::all::twoway'))
+reg(part('lib_root', 'src/lib.rs', '', only_items=['use crate::memchr::{*']))
 reg(part('memmem_reexport', 'src/memmem/mod.rs', 'memmem', only_items=['use crate::memmem::searcher::Pre']))
 
 P0 = ['prelude/vbase.vrs']
@@ -89,7 +96,9 @@ BUILDS = {
                            's_sse2_packedpair', 's_avx2_packedpair'], prelude=P0 + ['prelude/x_eqrk.vrs', 'prelude/x_pp.vrs']),
     'dev_pre': dict(parts=['ext', 'vector', 'stub_all_memchr', 'memmem_reexport', 'memmem_pre'], prelude=P0),
     'dev_tw': dict(parts=['ext', 'vector', 'all_mod', 'stub_all_memchr', 'memmem_reexport', 'memmem_pre', 'all_twoway'], prelude=P0 + ['prelude/x_eqrk.vrs', 'prelude/x_tw.vrs']),
-    'dev_memmem': dict(parts=['ext', 'vector', 'memmem_mod', 'memmem_searcher', 'cow'], prelude=P0 + ['prelude/x_memmem.vrs']),
+    'dev_memmem': dict(parts=['ext', 'vector', 'stub_root', 'stub_all_memchr', 'stub_all_packedpair', 'stub_rabinkarp',
+                              'stub_twoway', 'cow', 'memmem_mod', 'memmem_pre', 'memmem_searcher'],
+                       prelude=P0 + ['prelude/x_memmem.vrs']),
 }
 
 CONFIGS_EXTRA = {'union': UNION}
